@@ -111,7 +111,7 @@ fn search(unit: &str, tag: &str, tier: &str) -> Option<Value> {
         "c19_queries" | "c19_cols" | "c19_wrap" | "c19_feed" => c19::search(tag, tier),
         "c09_ids" => c09::search(tier),
         "c02_weakly" | "c02_merge" => c02::search(tag, tier),
-        "c04_pager" | "c02_itemset" => if tag.starts_with("C15") { c15::search(tag, tier) } else if tag.starts_with("C16") { c16::search(tag, tier).or_else(|| c04::search(tag, tier)) } else { c04::search(tag, tier).or_else(|| c02::search(tag, tier)) },
+        "c04_pager" | "c02_itemset" | "c02_add" => if tag.starts_with("C15") { c15::search(tag, tier) } else if tag.starts_with("C16") { c16::search(tag, tier).or_else(|| c04::search(tag, tier)) } else { c04::search(tag, tier).or_else(|| c02::search(tag, tier)) },
         "c16_gc" | "c20_states" if tag.starts_with("C16") => c16::search(tag, tier),
         "c16_gc" if tag.starts_with("C15") => c15::search_tables(tier),
         "c07_lr" | "c04_next" => c07::search(tag, tier),
